@@ -5,7 +5,7 @@ import (
 )
 
 // atom appends one element of the escape alphabet to (value, spelling).
-const nAtoms = 19
+const nAtoms = 20
 
 func atom(name string, kind int, val, sp []byte) ([]byte, []byte) {
 	switch kind {
@@ -54,6 +54,15 @@ func atom(name string, kind int, val, sp []byte) ([]byte, []byte) {
 		hex := "0123456789abcdef"
 		sp = append(sp, '\\', 'u', hex[cp>>12&15], hex[cp>>8&15], hex[cp>>4&15], hex[cp&15])
 		return appendUTF8(val, cp), sp
+	case 19:
+		// an escaped surrogate pair at the corners of the pair space: U+10000 (D800 DC00) and U+10FFFF (DBFF DFFF)
+		hex := "0123456789abcdef"
+		pairs := [][3]int{{0xd800, 0xdc00, 0x10000}, {0xdbff, 0xdfff, 0x10ffff}}
+		pr := pairs[vx.Choose(name+".pair", len(pairs))]
+		for _, u := range pr[:2] {
+			sp = append(sp, '\\', 'u', hex[u>>12&15], hex[u>>8&15], hex[u>>4&15], hex[u&15])
+		}
+		return appendUTF8(val, pr[2]), sp
 	}
 	panic("atom")
 }
